@@ -37,6 +37,44 @@ class _Cases(core.Space):
         return {"irs": self.irs.describe(), "start_kinds": list(rt.KINDS), "size": len(self)}
 
 
+def spec_ir(version):
+    """Reference IR of a hand-written interface version (mc/project.py)."""
+    import ast as _ast
+    from collections import OrderedDict
+
+    from mc import project as pj
+
+    v = pj.VERSIONS[version]
+    params = OrderedDict()
+    for n, t, dv, d in v["params"]:
+        p = {"typ": t, "doc": d}
+        if dv is not None:
+            val = _ast.literal_eval(dv)
+            p["default"] = al.NONE_STR if val is None else val
+        params[n] = p
+    return {"name": None, "type": "static", "doc": v["doc"], "params": params, "returns": None}
+
+
+class _Hand(core.Space):
+    """Hand-written (not doctrans-emitted) start artefacts: interface version x start kind."""
+
+    KINDS = ("class", "function", "argparse")
+
+    def __init__(self):
+        from mc import project as pj
+
+        self.items = [(v, k) for v in sorted(pj.VERSIONS) for k in self.KINDS]
+
+    def __len__(self):
+        return len(self.items)
+
+    def __getitem__(self, i):
+        return {"hand": self.items[i][0], "start": self.items[i][1]}
+
+    def describe(self):
+        return {"hand_written_starts": len(self.items)}
+
+
 class C05(core.Check):
     id = "C05"
     level = "model_checking"
@@ -52,7 +90,7 @@ class C05(core.Check):
         return 4 if self.tier == "thorough" else 3
 
     def space(self):
-        return _Cases(al.S_C())
+        return core.Concat(_Cases(al.S_C()), _Hand())
 
     def policy_for(self, chain):
         code_hop = any(k in ("class", "function", "method", "argparse") for k in chain)
@@ -63,7 +101,71 @@ class C05(core.Check):
             pol.update({"type_extra": ("str", "Optional[str]"), "zero_typ_fallback": "str", "ret_only_with_default": True})
         return pol
 
+    def run_hand(self, case):
+        """Chains that start from source text a user wrote (positional parameters without default before defaulted
+        ones, annotations, :param lines) instead of from text doctrans emitted."""
+        from mc import project as pj
+
+        version, start = case["hand"], case["start"]
+        kind = "argparse_function" if start == "argparse" else start
+        text0 = pj.render(kind, version, "f" if start == "function" else None)
+        ref = spec_ir(version)
+        pref = rm.project(ref)
+        sites, states, transitions, memo = [], set(), [0], {}
+
+        def convert(k, text, target):
+            key = (k, text, target)
+            if key not in memo:
+                try:
+                    memo[key] = ("ok", rt.emit_kind(target, rt.parse_kind(k, text), KIND_OPTS[target]))
+                except Exception as e:
+                    memo[key] = ("raise", core.exc_obs(e))
+            transitions[0] += 1
+            return memo[key]
+
+        def check(chain, text):
+            base = {"chain": ">".join(chain), "hand": version}
+            try:
+                back = rm.project(rt.parse_kind(chain[-1], text))
+            except Exception as e:
+                sites.append(site(False, dict(base, field="parse"), fail="parse_raise", **core.exc_obs(e)))
+                return
+            pol = self.policy_for(chain)
+            names = [p[0] for p in back["params"]]
+            sites.append(site(names == [p[0] for p in pref["params"]], dict(base, field="names"), fail="names", got=names))
+            got = {p[0]: p for p in back["params"]}
+            for name, typ, doc, default in pref["params"]:
+                if name not in got:
+                    continue
+                _, otyp, odoc, odef = got[name]
+                f = dict(base, pname=name)
+                sites.append(site(rm.type_ok(typ, otyp, default, pol.get("type_extra", ())) or otyp == "Optional[%s]" % typ, dict(f, field="typ"),
+                                  fail="typ", got=otyp))
+                sites.append(site(rm.prose_ok(doc, odoc), dict(f, field="doc"), fail="doc", got=odoc))
+                sites.append(site(rm.default_ok(default, odef, pol.get("absent_default", ("absent",)), typ), dict(f, field="default"),
+                                  fail="default", got=list(odef) if odef != rm.ABSENT else odef))
+
+        def walk(chain, text):
+            states.add((chain[-1], text))
+            check(chain, text)
+            if len(chain) >= self.depth():
+                return
+            for k in rt.KINDS:
+                if k in chain:
+                    continue
+                st, val = convert(chain[-1], text, k)
+                if st == "raise":
+                    sites.append(site(False, {"chain": ">".join(chain + [k]), "hand": version, "field": "convert"}, fail="convert_raise", **val))
+                    continue
+                walk(chain + [k], val)
+
+        walk([start], text0)
+        return (sites, [start, text0], [sorted(states), transitions[0]],
+                {"states": states, "transitions": transitions[0], "traces_validated_against_impl": transitions[0]})
+
     def run_case(self, case):
+        if "hand" in case:
+            return self.run_hand(case)
         atoms, ret, ir = al.case_ir(case)
         start = case["start"]
         ap_ok = argparse_expressible(case)
